@@ -243,6 +243,19 @@ CHECKS = {
              "durability against power loss is not simulated (order only). The libFuzzer target planned in DESIGN was not built: the "
              "fork-server sweep with domain mutations already reaches the loader at ~3k loads/s/core.",
         design="DESIGN.md section 4, C09"),
+    "C16": dict(
+        category="other",
+        technique="differential testing against a vendored reference corpus written by the pinned commit, plus property-based comparison of the hash/CRC code with independent implementations",
+        engine="golden-corpus",
+        text="16 reference arrays (both hash kinds, hash sizes 2/4/8/16, levels 1..6, z-parity, split layouts, three block sizes, "
+             "content formats 2 and 3, a hash migration in progress, fragmented allocation, links/dirs/odd names) written by a build of "
+             "commit e695936 are materialised from golden/: the current build must load them, check must verify every file and parity "
+             "block, and after losing a data disk and an N-subset of devices (all single devices and 12 subsets in thorough) fix must "
+             "restore the vendored bytes and time-stamps. 22190 stored digest / CRC / parity vectors are recomputed, and random inputs "
+             "are hashed by the current code and by independent implementations.",
+        note="The guarantee is as wide as the corpus and vectors; time-stamps are re-applied from the manifest; the corpus is never "
+             "regenerated by a check (tools/mkgolden.py documents how it was made).",
+        design="DESIGN.md section 4, C16"),
 }
 
 NOT_YET = "check not built yet at this commit (planned in DESIGN.md section 4); not claimed until it runs"
@@ -284,6 +297,8 @@ def main():
         "engines": [
             {"name": "raidprop", "path": "native/raidprop.cpp", "serves_properties": ["C02", "C03"],
              "kind_free_text": "rapidcheck property tests + deterministic sweeps linked against /repo/raid objects"},
+            {"name": "golden-corpus", "path": "props/c16.py", "serves_properties": ["C16"],
+             "kind_free_text": "vendored reference arrays and vectors (golden/) replayed against the current build"},
             {"name": "hypothesis-cli", "path": "lib/pbt.py", "serves_properties": sorted(k for k, v in CHECKS.items() if v["engine"] == "hypothesis-cli"),
              "kind_free_text": "16 Hypothesis worker processes generating {config, program, fault} cases executed against the snapraid "
                                "binary built from /repo in private tmpfs arrays; oracles in lib/ (cfparse, hashes, gf256, parityoracle)"},
